@@ -99,6 +99,12 @@ theorem seed_function_of_samples (rng : UInt64 → List Nat) (nu de nu' de' : Li
     ratio f64 nu de conf n (rng (seed nu de)) = ratio f64 nu' de' conf n (rng (seed nu' de')) := by
   subst hnu; subst hde; exact ⟨rfl, rfl⟩
 
+/-- the seed is symmetric in the two samples (a product of the two hashes): a point whose samples
+mirror another point's draws from the *same* generator stream — harmless as long as every point is
+bootstrapped from its own samples, which is what the search layer checks per point -/
+theorem seed_mirror (nu de : List F64.Bits) : seed nu de = seed de nu := by
+  unfold seed; exact UInt64.mul_comm _ _
+
 /-! ## Dates -/
 
 /-- **date_same_instant_same_string** — the normalised string is a function of the instant
